@@ -136,7 +136,7 @@ ob("C10", "O-C10.observers", ZB + "c10_observers", "hash() returns the stored ha
    ["ZobristBoard::hash", "ZobristBoard::hash_without_ep", "ZobristBoard::empty"], timeout=900)
 ob("C10", "O-C10.contract-stubs", ZB + "c10_contract_stubs_faithful", "the contract stubs used by board-level hash obligations have exactly the field effect of the real writers",
    ["ZobristBoard::xor_square", "ZobristBoard::set_castle_right", "ZobristBoard::set_en_passant", "ZobristBoard::toggle_side_to_move"], timeout=900)
-ob("C10", "O-C10.null", "board::verif_board::c10_null_hash", "after null_move the accumulated key toggles turn the feature set of the position into the feature set of the result (hash stays the position's hash)",
+ob("C10", "O-C10.null", "board::verif_board::c10_null_hash", "hash after null_move == hash before ^ keys of the changed side/EP features, placement untouched (real key arithmetic)",
    ["Board::null_move"], timeout=1800, cut=True, flags=BF)
 ob("C10", "O-C10.board_is_equal", ZB + "c10_board_is_equal", "board_is_equal compares exactly placement, side to move and castling rights",
    ["ZobristBoard::board_is_equal"], timeout=900)
@@ -156,8 +156,10 @@ for k in KINDS:
        PLAYFNS, timeout=2400, cut=True, flags=BF)
     ob("C06", "O-C06.inv-preserved.play." + k, BD + "c06_play_" + k, "acceptance is inductive: the rule-prescribed successor of an accepted position after a legal %s move is accepted" % k,
        ["(oracle) spec_accept", "(oracle) spec_play", "(oracle) spec_legal"], timeout=2400, flags=BF)
-    ob("C10", "O-C10.play." + k, BD + "c10_play_" + k, "after play_unchecked of any legal %s move the accumulated key toggles turn the feature set of the position into that of the successor" % k,
-       PLAYFNS, timeout=2400, cut=True, flags=BF)
+    ob("C10", "O-C10.play." + k, BD + "c10g_play_" + k, "after play_unchecked of any legal %s move the key toggles performed by the four hash writers (seen through their contracts O-C10.writer.*) turn the feature set of the position into that of the successor" % k,
+       PLAYFNS, timeout=2400, cut=True, flags=BF, group="hash-ghost")
+    ob("C10", "O-C10.play-real." + k, BD + "c10_play_" + k, "after play_unchecked of any legal %s move: hash ^ old hash == XOR of the REAL keys of the features that changed on the (at most five) touched squares and in rights/EP/side; nothing else changed" % k,
+       PLAYFNS, timeout=5400, cut=True, flags=BF, tier="thorough", group="hash-real")
 
 # ------------------------------------------------------------------------------------------- C01 / C16
 MG = "board::movegen::verif_movegen::"
@@ -169,6 +171,69 @@ for k in ["pawn", "knight", "bishop", "rook", "queen", "king", "none"]:
                "generate_moves_for(mask, listener) on every accepted board (%s), query origin holding %s: the query move is delivered exactly once iff it is legal by the rules and its origin is in the mask; batches non-empty, origin in mask, piece correct; no call after abort, return value == aborted; <= 1 ordinary + 1 en-passant batch per origin" % (mt, "an own " + k if k != "none" else "no own piece"),
                GENFNS, timeout=3600, cut=True, flags=BF,
                tier="quick" if (prop == "C01" or (k, m) in (("pawn", 0), ("rook", 1), ("king", 0), ("none", 2))) else "thorough")
+
+# ------------------------------------------------------------------------------------------- C04
+for k in ["pawn", "knight", "bishop", "rook", "queen", "king", "none"]:
+    ob("C04", "O-C04.is-legal." + k, MG + "c04_is_legal_" + k, "is_legal(mv) == legality by the rules for every accepted board and every move value (64x64x7) whose origin holds %s; never panics" % ("an own " + k if k != "none" else "no own piece"),
+       ["Board::is_legal", "Board::king_is_legal", "Board::can_castle", "Board::king_safe_on", "Board::add_pawn_legals", "Board::target_squares"], timeout=3000, flags=BF)
+# ------------------------------------------------------------------------------------------- C12
+for k in ["pawn", "knight", "bishop", "rook", "queen", "king"]:
+    ob("C12", "O-C12.status." + k, MG + "c12_status_" + k, "status() is one of the two rows of the Won/Drawn/Ongoing table for (in check, clock >= 100) and is the has-a-legal-move row whenever a legal %s move exists (loop-invariant VCs: no processed square has a legal move)" % k,
+       ["Board::status", "Board::generate_moves", "Board::generate_moves_for"] + GENFNS[1:], timeout=3600, cut=True, flags=BF, expect_covers=0)
+# ------------------------------------------------------------------------------------------- C15
+ob("C15", "O-C15.try_play", BD + "c15_try_play", "try_play consults is_legal once with the given move on the untouched board; Err iff the answer is no and then the board is bit-identical; Ok iff yes and then the board is exactly what play_unchecked produced (recording contract stubs)",
+   ["Board::try_play"], timeout=900)
+ob("C15", "O-C15.play.legal", BD + "c15_play_legal_no_panic", "play does not panic on a legal move and leaves the board as play_unchecked produced it",
+   ["Board::play", "Board::try_play"], timeout=900)
+ob("C15", "O-C15.play.illegal-panics", BD + "c15_play_illegal_panics", "play panics on every illegal move",
+   ["Board::play", "Board::try_play"], timeout=900, should_panic=True)
+# ------------------------------------------------------------------------------------------- C13
+ob("C13", "O-C13.same_position", BD + "c13_same_position", "same_position(a, b) == same placement, side, rights and the same file on which a PAWN can legally capture en passant (or none), for all pairs of accepted boards; is_legal and the EP-less hash through their contracts",
+   ["Board::same_position", "effective_ep", "ZobristBoard::board_is_equal"], timeout=3000, flags=BF, expect_covers=2)
+
+# ------------------------------------------------------------------------------------------- validators / builder
+VD = "board::validate::verif_validate::"
+BL = "board::builder::verif_builder::"
+ob("C03", "O-C03.calc", VD + "c03_calc", "calculate_checkers_and_pins(colour) == (checkers, pins) by definition on every consistent placement (loop-invariant VCs)",
+   ["Board::calculate_checkers_and_pins", "Board::king"], timeout=2400, cut=True, flags=BF)
+ob("C03", "O-C03.null", BD + "c14_null_move", "after null_move: checkers empty and pins == definition on the resulting position",
+   ["Board::null_move"], timeout=1800, cut=True, flags=BF)
+ob("C03", "O-C03.ctor.build", BL + "c09_build", "build() stores checkers and pins equal to their definition (part of the build contract)",
+   ["BoardBuilder::build", "BoardBuilder::add_board"], timeout=3600, cut=True, flags=BF)
+ob("C06", "O-C06.board_is_valid", VD + "c06_board_is_valid", "board_is_valid() <=> consistent placement, one king per side, kings not adjacent, <=16 pieces, <=8 pawns, no pawn on rank 1/8, side not to move not in check",
+   ["Board::board_is_valid", "Board::calculate_checkers_and_pins"], timeout=2400, cut=True, flags=BF)
+ob("C06", "O-C06.castle_rights_are_valid", VD + "c06_castle_rights_are_valid", "castle_rights_are_valid() <=> every right backed by the king on its back rank and an own rook on the named file on the correct side",
+   ["Board::castle_rights_are_valid"], timeout=1800, flags=BF)
+ob("C06", "O-C06.en_passant_is_valid", VD + "c06_en_passant_is_valid", "en_passant_is_valid() <=> EP file backed by an enemy pawn that could just have advanced two squares (origin, passed square empty) and every checker is that pawn or seen through the origin square",
+   ["Board::en_passant_is_valid"], timeout=2400, cut=True, flags=BF)
+ob("C06", "O-C06.checkers_and_pins_are_valid", VD + "c06_checkers_and_pins_are_valid", "checkers_and_pins_are_valid() <=> stored checkers/pins equal their definition and at most two checkers",
+   ["Board::checkers_and_pins_are_valid", "Board::calculate_checkers_and_pins"], timeout=2400, cut=True, flags=BF)
+ob("C06", "O-C06.clocks", VD + "c06_clocks_valid", "halfmove_clock_is_valid <=> <= 100; fullmove_number_is_valid <=> > 0",
+   ["Board::halfmove_clock_is_valid", "Board::fullmove_number_is_valid"], timeout=600)
+ob("C06", "O-C06.spec.attack-duality", VD + "spec_attack_duality", "oracle guard: forward (union of attack sets) and reverse (lookup from the target) formulations of 'attacked' agree for every placement and occupancy",
+   ["(oracle) attacked_by", "(oracle) attackers_of"], timeout=1800, flags=BF)
+ob("C06", "O-C06.accept.build", BL + "c09_build", "build() returns a board only for states denoting an accepted position (=> every fact of the statement), and returns one for every such state",
+   ["BoardBuilder::build"], timeout=3600, cut=True, flags=BF)
+ob("C09", "O-C09.build", BL + "c09_build", "build() on a fully symbolic builder state: Ok exactly when the state denotes an accepted position, board == that position with derived fields by definition and hash accounted; when exactly one aspect is wrong the error names it",
+   ["BoardBuilder::build", "BoardBuilder::add_board", "BoardBuilder::add_castle_rights", "BoardBuilder::add_en_passant", "BoardBuilder::add_halfmove_clock", "BoardBuilder::add_fullmove_number"], timeout=3600, cut=True, flags=BF, expect_covers=1)
+ob("C09", "O-C09.from_board", BL + "c09_from_board", "from_board(b) is the builder state denoting b's position (universally quantified square; loop-invariant VCs for the innermost loop)",
+   ["BoardBuilder::from_board", "BoardBuilder::square_mut", "BoardBuilder::castle_rights_mut"], timeout=2400, cut=True, flags=BF)
+ob("C10", "O-C10.ctor.build", BL + "c10g_build_hash", "build() leaves hash == XOR of the keys of the features of the built position: from the empty board through the four writers only (feature accounting through their contracts)",
+   ["BoardBuilder::build", "BoardBuilder::add_board", "BoardBuilder::add_castle_rights", "BoardBuilder::add_en_passant"], timeout=3600, cut=True, flags=BF, group="hash-ghost")
+
+# ------------------------------------------------------------------------------------------- C11
+ob("C11", "O-C11.indep4", "indep4.rs", "Verus-verified checker (for all inputs: true => no XOR of 1..4 distinct entries is zero), compiled and executed on the real 793-entry key table dumped from the current tree",
+   ["(verified) check_indep4", "ZOBRIST (const table)"], backend="verus", timeout=1800)
+
+# ------------------------------------------------------------------------------------------- C08
+PR = "board::parse::verif_parse::"
+ob("C08", "O-C08.field.side.b3", PR + "c08_field_side_b3", "parse_side_to_move accepts exactly \"w\" / \"b\" and sets the side", ["Board::parse_side_to_move", "Color::from_str"], timeout=900, bounded="all UTF-8 strings of at most 3 bytes")
+ob("C08", "O-C08.field.clocks.b6", PR + "c08_field_clocks_b6", "parse_halfmove_clock / parse_fullmove_number accept exactly decimal texts in 0..=100 / 1..=65535 and store the value", ["Board::parse_halfmove_clock", "Board::parse_fullmove_number"], timeout=1800, bounded="all UTF-8 strings of at most 6 bytes")
+ob("C08", "O-C08.field.ep.b4", PR + "c08_field_ep_b4", "parse_en_passant accepts exactly \"-\" or a square on the rank behind the pawn of the side that just moved and stores its file", ["Board::parse_en_passant", "Square::from_str"], timeout=900, bounded="all UTF-8 strings of at most 4 bytes")
+ob("C08", "O-C08.field.castle.b5", PR + "c08_field_castle_b5", "parse_castle_rights: FEN (KQkq) and Shredder (file letters) notation decoded per reference, duplicates and the EMPTY field rejected", ["Board::parse_castle_rights"], timeout=1800, bounded="all UTF-8 strings of at most 5 bytes; any two king squares")
+ob("C08", "O-C08.field.board.b17", PR + "c08_field_board_b17", "parse_board accepts exactly 8 ranks of exactly 8 files and the placement is the one the text denotes", ["Board::parse_board"], timeout=3600, bounded="all UTF-8 strings of at most 17 bytes")
+ob("C08", "O-C08.orchestration.b12", PR + "c08_orchestration_b12", "from_fen with all field parsers / validators replaced by recording stubs: a board only for six fields with every stage succeeding, each field handed to its parser; a single failing stage names its field; too few / too many fields reported as such; never panics", ["Board::from_fen"], timeout=3600, bounded="all UTF-8 strings of at most 12 bytes (any number of spaces) x all 2^12 stage outcomes")
+ob("C08", "O-C08.fromstr", PR + "c08_fromstr_retry", "FromStr returns the plain-FEN result and retries as Shredder-FEN exactly on InvalidCastlingRights", ["Board::from_str"], timeout=900)
 
 
 def for_property(prop, tier):
@@ -192,5 +257,11 @@ LEMMAS = {
 LEMMAS["C17"] = ["L-batch: from O-C17.iter.step by induction on the remaining length: iterating a batch yields exactly the moves m with batch_has(m), each exactly once, destinations ascending, promotions in the order N,B,R,Q"]
 LEMMAS["C05"] = ["L-slider (per back end): for all sq, occ: get_X_moves(sq, occ) = T[index(sq, occ)] = T[index(sq, occ & mask)] (lemma a) = spec(sq, occ & mask) (finite case analysis c, every subset of mask) = spec(sq, occ) (lemma b)",
                  "L-const: const variants == spec (O-C05.slow.*, all 64 squares) hence fast lookups == const variants in both back ends"]
-LEVEL = {}
+LEMMAS["C12"] = ["L-exists: generate_moves(|_| true) returns true iff a legal move exists. (<=) machine-checked here (O-C12.status.*: if a legal move exists the has-move row is returned). (=>) from O-C01/O-C16: the listener is only called with non-empty batches all of whose members are legal, and the return value is true only if the listener was called"]
+LEMMAS["C13"] = ["reflexive/symmetric/transitive: spec_same_position is equality of the tuple (placement, side, rights, effective EP file), a function of one board"]
+LEMMAS["C15"] = ["with O-C04 (is_legal == legality) and O-C02/C03/C10 (play_unchecked contract): try_play succeeds exactly on legal moves and then yields the rule-prescribed successor"]
+LEMMAS["C11"] = ["L-C11: by C10 (hash == XOR of KEY over the features present, writer contracts + feature accounting) hash(a) ^ hash(b) = XOR of KEY over the symmetric difference of the two feature sets; the feature -> table-entry map is injective (distinct indices of the table, O-C10.writer.* pin the indexing); for 1..4 differing features the XOR is non-zero by indep4 of the dumped table"]
+LEMMAS["C10"] = ["L-lin: if positions p, q agree outside a set S of squares then spec_hash(q) ^ spec_hash(p) = XOR over s in S of (KEY(p at s) ^ KEY(q at s)) ^ rest(p) ^ rest(q) (XOR is associative/commutative; equal terms cancel). With O-C10.play.* / O-C10.null (hash delta == that sum, real arithmetic) and O-C10.ctor.* (constructors establish hash == spec_hash) the invariant hash == spec_hash(position) holds along every history (L-hist)",
+                 "L-hist: induction over the history: constructors establish INV (O-C09.build, O-C10.ctor.build), play_unchecked and null_move preserve it (O-C02/C03/C06.inv-preserved/C10.play, O-C14.null/O-C10.null)"]
+LEVEL = {"C08": "model_checking"}
 ASSUME = {}
